@@ -44,6 +44,7 @@ THEOREMS = [
     'C01_flex_algorithm_NS_refuted : exists s st i, ComputeSize /\\ ~ SizeOnly (flex_alg s st i) /\\ first non-size event = PerformLayout/ContentSize query to child 0 (flexbox.rs l.1440)',
     'C05_grid_algorithm_shape : GShape st (grid_alg s st i)  [every event: ComputeSize query to an in-flow child | PerformLayout query / SetLayout on a child that is not display:none | '
     'Query c hidden_child_input (fun _ => SetLayout c (with_order n) ..) on a display:none child | Ret; grid_alg = compute_grid_layout as a resumption, Model/GridAlg.v, K-exact against the event trace]',
+    'C05_grid_model_loops_are_source : oof_view s = (if grid_final_loop_hidden_test .. s then OHidden else if grid_final_loop_absolute_test .. s then OAbs s else OSkip) /\\ grid_hidden_branch_is_canonical = true /\\ grid_absolute_branch_is_local = true /\\ grid_tree_calls_address_item_only = true   [tests TRANSLATED from the final loop of compute_grid_layout]',
     'C05_grid_sizing_guard_never_fires : place .. = Ok (m, placed) -> mapM make_item placed = Ok items0 -> PGood (in-flow flag set) true (fun _ => True) (m_size_grid s P i (mkSS cols0 rows0 0 0 items0))',
     'C05_grid_algorithm_hidden_blind : HiddenBlind g_is_none grid_alg /\\ grid_alg s st i = grid_alg s (map g_hidden_view st) i',
     'C05_grid_algorithm_sets_zero_on_hidden : SetsZeroOnHidden g_is_none grid_alg g_zeroish',
